@@ -19,6 +19,7 @@ META = dict(
     required_hits=["basis_values", "unity", "delta", "polyrep", "reinterp", "shortcut_probe", "reject"],
     max_inconclusive_frac=0.02,
 )
+META["level_text"] += " Grids are also handed over as float32 arrays, in descending or arbitrary order, and the caller's array is edited in place after construction."
 
 EPS = orc.EPS
 C_TOL = 8.0  # multiple of (d+1)*eps*kappa; calibrated: observed error <= 0.1 of this on the unmodified tree (5 seeds)
